@@ -6,7 +6,7 @@ From Verif Require Import DescWrapModel DescCasesDefs DescPoolGen DescTablesGen 
 Definition sid (c : scase) : N := fst (fst c).
 Definition kid (c : kcase) : N := fst (fst (fst (fst c))).
 Definition spid (c : splitcase) : N := fst (fst c).
-Definition fid (c : findcase) : N := fst (fst (fst c)).
+Definition fid (c : findcase) : N := fst (fst (fst (fst (fst c)))).
 Definition pid (c : pcase) : N := fst (fst (fst (fst (fst c)))).
 
 (* lists of (case id, bit mask of the components that differ) *)
